@@ -45,7 +45,7 @@ def setup_worker(w, tier):
 
 def generate(rs, tier):
   g = stream(rs, 'gen')
-  ops = W.gen_build_ops(g, g.randrange(3, 12))
+  ops = W.gen_build_ops(g, g.randrange(3, 12), W.STATICS_TYPED)
   n_api = g.randrange(2, 10)
   for _ in range(n_api):
     r = g.random()
@@ -79,7 +79,12 @@ def generate(rs, tier):
       ops.insert(pos + 1, dict(op='setmeta', var=g.randrange(64), key=g.choice(['tag', 'note']), value=g.choice(['x', 'y', 'frozen'])))
       ops.insert(pos + 2, dict(op='update', root=root, how='restore_kept', filt={'e': True}, delta=1))
     if g.random() < 0.3:
-      ops[-1:-1] = W.gen_build_ops(g, 2)[1:]
+      ops[-1:-1] = W.gen_build_ops(g, 2, W.STATICS_TYPED)[1:]
+  if g.random() < 0.25:
+    # some Variables carry a user get-hook: `.value` shows a transformed view, the stored value is what split, state,
+    # update, clone and pop move around
+    for _ in range(g.choice([1, 2])):
+      ops.insert(g.randrange(1, len(ops) + 1), dict(op='setmeta', var=g.randrange(64), key='on_get_value', value='@GETHOOK'))
   return dict(engine='nnxworld', knobs=dict(gc_every=g.choice([0, 0, 3])), ops=ops)
 
 
